@@ -19,6 +19,10 @@ type C09 struct {
 	counters
 	noGhost
 	noStep
+	// Diff, when non-empty, enables the differential oracle: every event of
+	// the list is applied to the original state and to the imported state
+	// and must give the same result and the same module exports.
+	Diff []explore.Event
 }
 
 func (*C09) Name() string { return "C09" }
@@ -127,6 +131,36 @@ func (m *C09) OnState(_ explore.Ghost, c *chain.Chain, ctx sdk.Context, s *chain
 	for i := range msgs {
 		if broken[i] {
 			out = append(out, V{Kind: "C09/invariant-broken-after-import/" + nc.Invariants[i].Route, Detail: msgs[i]})
+		}
+	}
+	if len(m.Diff) > 0 && len(out) == 0 {
+		for _, ev := range m.Diff {
+			a := ev.Make(s)
+			if a == nil {
+				continue
+			}
+			p1, _, r1, _ := explore.Apply(c, ctx, a)
+			p2, _, r2, _ := explore.Apply(nc, nctx, a)
+			m.inc("differential_events_applied")
+			if r1.OK != r2.OK || r1.Err != r2.Err {
+				out = append(out, V{Kind: "C09/differential/result-differs/" + actType(a),
+					Detail: fmt.Sprintf("%s: original ok=%v %q, imported ok=%v %q", a.Label, r1.OK, r1.Err, r2.OK, r2.Err)})
+				continue
+			}
+			if !r1.OK && a.Kind != explore.ActNextBlock {
+				continue
+			}
+			e1, e2 := c.Eco.ExportGenesis(p1, c.Cdc), nc.Eco.ExportGenesis(p2, nc.Cdc)
+			if !bytes.Equal(canonJSON(e1), canonJSON(e2)) {
+				out = append(out, V{Kind: "C09/differential/state-differs/" + actType(a) + "/" + firstDiffTable(e1, e2),
+					Detail: fmt.Sprintf("%s leads to different ecocredit state from the original and from the imported chain (table %s)", a.Label, firstDiffTable(e1, e2))})
+			}
+			d1, err1 := c.DataSrv.ExportGenesis(p1, c.Cdc)
+			d2, err2 := nc.DataSrv.ExportGenesis(p2, nc.Cdc)
+			if err1 == nil && err2 == nil && !bytes.Equal(canonJSON(d1), canonJSON(d2)) {
+				out = append(out, V{Kind: "C09/differential/state-differs/" + actType(a) + "/" + firstDiffTable(d1, d2),
+					Detail: fmt.Sprintf("%s leads to different data state from the original and from the imported chain", a.Label)})
+			}
 		}
 	}
 	if len(s.Batches) > 0 {
